@@ -419,10 +419,15 @@ def fresh_group_state(key):
     c = tables.TableGroupCache()
     saved = tables.MAXIMUM_NUMBER_OF_CACHED_TABLE_GROUPS
     tables.MAXIMUM_NUMBER_OF_CACHED_TABLE_GROUPS = 50
+    from harness import c13heap
+    ha = c13heap._CURRENT[0]
+    prev = ha.enter('load', 'a private copy of %s for the audit' % key_str(key)) if ha is not None else None
     try:
         return group_state(c.get(key))
     finally:
         tables.MAXIMUM_NUMBER_OF_CACHED_TABLE_GROUPS = saved
+        if ha is not None:
+            ha.leave(prev)
 
 
 def key_str(k):
@@ -446,7 +451,7 @@ def tg_key(v, loc):
 # ---------------------------------------------------------------------------------------------
 # executing a history on the implementation (in a process of its own)
 class Runner(object):
-    def __init__(self, pool, limit):
+    def __init__(self, pool, limit, heap=True):
         from pybufrkit import tables
         self.pool = pool
         self.tables = tables
@@ -482,20 +487,34 @@ class Runner(object):
         class LoggingCache(tables.TableGroupCache):
             def get(self, key):
                 tag = 'ok'
+                heap_ = runner.heap
+                miss = heap_ is not None and key not in self._groups
+                if miss:
+                    prev = heap_.enter('load', key_str(key))     # heap audit: the only phase in which the objects of `key` are written
                 try:
                     return tables.TableGroupCache.get(self, key)
                 except BaseException as e:
                     tag = core.err_tag(e)
                     raise
                 finally:
+                    if miss:
+                        heap_.leave(prev)
+                        heap_.sync_tables(self)                  # evicted groups forgotten, the new one snapshotted + registered
                     runner.log.append((key_str(key), tag, [key_str(k) for k in self._groups], tables.MAXIMUM_NUMBER_OF_CACHED_TABLE_GROUPS))
                     runner.elog.append(('t', key_str(key), tag))
 
             def invalidate(self):
                 tables.TableGroupCache.invalidate(self)
+                if runner.heap is not None:
+                    runner.heap.sync_tables(self)
                 runner.log.append(('#inval', 'done', [], tables.MAXIMUM_NUMBER_OF_CACHED_TABLE_GROUPS))
 
         tables.TableGroupCacheManager._TABLE_GROUP_CACHE = LoggingCache()
+        # heap audit (harness/c13heap.py): the write discipline of the heap model (Msg/Heap.lean) checked on this process
+        self.heap = None
+        if heap:
+            from harness import c13heap
+            self.heap = c13heap.HeapAudit(key_str, ckey_str)
         if limit is not None:
             tables.MAXIMUM_NUMBER_OF_CACHED_TABLE_GROUPS = limit
         self.coders = {}
@@ -541,12 +560,18 @@ class Runner(object):
 
                 def logged(template, table_group, _orig=orig, _mgr=mgr, _name=name):
                     tag = 'ok'
+                    heap_ = runner.heap
+                    if heap_ is not None:
+                        prev = heap_.enter('compile', _name)
                     try:
                         return _orig(template, table_group)
                     except BaseException as e:
                         tag = core.err_tag(e)
                         raise
                     finally:
+                        if heap_ is not None:
+                            heap_.leave(prev)
+                            heap_.sync_compiled(_name, _mgr)     # evicted templates forgotten, a new one snapshotted + registered
                         runner.clog.append((_name, ckey_str((tuple(template.original_descriptor_ids), table_group.key)),
                                             tag, [ckey_str(k) for k in _mgr.cache], _mgr.cache_max))
                         runner.elog.append(('c', _name, ckey_str((tuple(template.original_descriptor_ids), table_group.key)), tag))
@@ -566,6 +591,19 @@ class Runner(object):
             raise
         finally:
             self.elog.append(('p', tag))
+
+    def managers(self):
+        return {'%s:%s' % k: c.compiled_template_manager for k, c in self.coders.items() if c.compiled_template_manager is not None}
+
+    def heap_check(self, i, op, ok):
+        """heap audit after operation i: digests of every cache entry; identity of the descriptors of a new message"""
+        h = self.heap
+        cache = self.tables.TableGroupCacheManager._TABLE_GROUP_CACHE
+        if ok and op['k'] == 'proc':
+            msg = self.objs.get((op['src'], op['c'], op['m']))
+            if msg is not None:
+                h.check_message(msg, cache)
+        h.after_op(cache, self.managers())
 
     def snapshot(self):
         """what the session model keeps as state: keys of the table-group cache, keys of every coder's compiled-template
@@ -668,28 +706,34 @@ def run_history(task):
     devnull = open(os.devnull, 'w')
     sys.stderr = devnull
     pool = load_pool(task['pool'])
-    r = Runner(pool, task.get('limit'))
+    r = Runner(pool, task.get('limit'), heap=task.get('heap', True))
     out = []
     st = []
     audit = None
     for i, op in enumerate(task['ops']):
         n0 = len(r.elog)
+        if r.heap is not None:
+            r.heap.begin_op(i)
+        ok = True
         try:
             out.append(r.do(op))
         except Exception as e:
             out.append(core.err_tag(e))
+            ok = False
         st.append({'ev': [list(e) for e in r.elog[n0:]], 'snap': r.snapshot()})
         if audit is None and task.get('audit', True):
             a = r.audit()
             if a:
                 audit = (i, a)
-    return {'out': out, 'log': r.log, 'clog': r.clog, 'audit': audit, 'st': st}
+        if r.heap is not None:
+            r.heap_check(i, op, ok)
+    return {'out': out, 'log': r.log, 'clog': r.clog, 'audit': audit, 'st': st, 'heap': r.heap.result() if r.heap is not None else None}
 
 
 def run_fresh(task):
     """one operation as the first thing a fresh interpreter does (default cache limit) -> (output, stage events)"""
     res = run_history({'pool': task['pool'], 'limit': None, 'ops': [task['op']]})
-    return res['out'][0], res['st'][0]['ev']
+    return res['out'][0], res['st'][0]['ev'], res['heap']
 
 
 # ---------------------------------------------------------------------------------------------
